@@ -48,6 +48,8 @@ type SPS struct {
 	FrameCropBottomOffset           uint
 	Width                           uint
 	Height                          uint
+	picWidthInMbsMinus1             uint
+	picHeightInMapUnitsMinus1       uint
 	NrBytesBeforeVUI                int
 	NrBytesRead                     int
 	VUI                             *VUIParameters
@@ -202,6 +204,8 @@ func ParseSPSNALUnit(data []byte, parseVUIBeyondAspectRatio bool) (*SPS, error) 
 	picWidthInMbsUnitsMinus1 := reader.ReadExpGolomb()
 	picHeightInMbsUnitsMinus1 := reader.ReadExpGolomb()
 
+	sps.picWidthInMbsMinus1 = picWidthInMbsUnitsMinus1
+	sps.picHeightInMapUnitsMinus1 = picHeightInMbsUnitsMinus1
 	sps.Width = (picWidthInMbsUnitsMinus1 + 1) * 16
 	sps.Height = (picHeightInMbsUnitsMinus1 + 1) * 16
 
